@@ -73,9 +73,11 @@ def eval_case(desc, ctx):
     env = desc["env"]
     if desc["k"] == "warm-indep":
         return eval_warm(desc, d)
-    base, files, conf = si.run_forward(d, env, "base")
-    sub, _, _ = si.run_forward(d, env, "sub", keep=desc["keep"])
-    sh, _, _ = si.run_forward(d, env, "shift", shift=desc["shift"])
+    # the forcing files state their times in seconds, hours or days (the frames are the same instants)
+    tu = ["s", "d", "h"][desc["seed"] % 3]
+    base, files, conf = si.run_forward(d, env, "base", time_unit=tu)
+    sub, _, _ = si.run_forward(d, env, "sub", keep=desc["keep"], time_unit=tu)
+    sh, _, _ = si.run_forward(d, env, "shift", shift=desc["shift"], time_unit=tu)
     # permutation of the rows within equal release steps (reverse each group)
     order = []
     rows = env["rows"]
